@@ -173,6 +173,7 @@ def install(R):
     R.add(K + "Sower.save_batch", cls="Sower", result="none", props=["C07", "C04"],
           requires=[("counter", "self._batch_counter >= 0")],
           modifies=["self._batch_counter", "self._batch_cases", "self._counter", "ghost:FS"],
+          raises={"OSError": dict()},
           ensures=[
               ("counter", "self._batch_counter == old(self._batch_counter) + 1 and self._counter == 0 and slen(self._batch_cases) == 0 and is_list(self._batch_cases)"),
               ("file", "fs_exists(BatchPath(self.crop.location, self._batch_counter)) and "
@@ -185,6 +186,7 @@ def install(R):
           requires=[("inv", "SowerInv(self)")],
           ghost_entry=["self.g_stream = snoc(self.g_stream, kwargs)", "self.g_k = self.g_k + 1"],
           modifies=["self._batch_counter", "self._batch_cases", "self._counter", "self.g_stream", "self.g_k", "ghost:FS"],
+          raises={"OSError": dict()},
           ensures=[("inv", "SowerInv(self)"),
                    ("stream", "self.g_stream == snoc(old(self.g_stream), kwargs) and self.g_k == old(self.g_k) + 1"),
                    ("crop_frame", "self.crop == old(self.crop) and self.crop.batchsize == old(self.crop.batchsize) "
@@ -203,6 +205,7 @@ def install(R):
                        "use('mul_mono', self._batch_counter + 1, ival(self.crop.num_batches) - 1, ival(self.crop.batchsize))",
                        "use('mul_mono', self._batch_counter, ival(self.crop.num_batches) - 1, ival(self.crop.batchsize))"],
           modifies=["self._batch_counter", "self._batch_cases", "self._counter", "ghost:FS"],
+          raises={"OSError": dict()},
           ensures=[
               ("count", "self._batch_counter == ival(self.crop.num_batches)"),
               ("files", "BatchesWritten(self, self.crop.num_batches)"),
